@@ -234,7 +234,7 @@ func (tr *tokenReader) skipFollowingWhitespace() {
 		case '\n':
 			tr.loc.incLine()
 			fallthrough
-		case ' ', '\r':
+		case ' ', '\r', '\t':
 			continue
 		}
 		tr.unreadByte()
